@@ -4,6 +4,8 @@ import (
 	"encoding/json"
 	"fmt"
 	"math/rand/v2"
+	"sort"
+	"strings"
 
 	"verifharness/internal/core"
 	"verifharness/internal/registry"
@@ -70,6 +72,17 @@ func runLabels(raw json.RawMessage, impl any) []string {
 	if in.SpotToSpot {
 		l = append(l, "gate:spot-to-spot")
 	}
+	l = append(l, lifeLabels(&in, cmd)...)
+	for _, ov := range in.Overlays {
+		switch {
+		case ov.Price != "":
+			l = append(l, "nodeoverlay:absolute-price")
+		case strings.HasSuffix(ov.Adjust, "%"):
+			l = append(l, "nodeoverlay:relative-adjustment(percent)")
+		default:
+			l = append(l, "nodeoverlay:relative-adjustment(amount)")
+		}
+	}
 	if len(in.Tables) > 0 {
 		l = append(l, fmt.Sprintf("pool-price-tables=%d", len(in.Tables)))
 		l = append(l, tableLabels(&in, cmd)...)
@@ -95,6 +108,57 @@ func runLabels(raw json.RawMessage, impl any) []string {
 	if c, _ := m["churned"].(bool); c && in.Churn != nil {
 		l = append(l, "churn:"+in.Churn.Kind)
 	}
+	return l
+}
+
+// lifeLabels: pods of the removed nodes that are still starting / unhealthy, and budgets over them.
+func lifeLabels(in *RunIn, cmd map[string]any) []string {
+	var l []string
+	for _, pe := range in.PDBs {
+		if pe.Blocking {
+			l = append(l, "pdb:fully-blocking:"+map[string]string{"": "maxUnavailable=0", "0%": "maxUnavailable=0%", "100%": "minAvailable=100%"}[pe.Form])
+		}
+		if pe.Policy != "" {
+			l = append(l, "pdb:unhealthyPodEvictionPolicy="+pe.Policy)
+		}
+	}
+	if cmd == nil {
+		return l
+	}
+	ext := map[string]PodExt{}
+	for _, pe := range in.Pods {
+		ext[pe.Pod] = pe
+	}
+	removed := map[string]bool{}
+	cs, _ := cmd["cands"].([]any)
+	for _, c := range cs {
+		name, _ := c.(map[string]any)["node"].(string)
+		removed[name] = true
+	}
+	seen := map[string]bool{}
+	for _, n := range in.Scn.Nodes {
+		if !removed[n.Name] {
+			continue
+		}
+		for _, p := range n.Pods {
+			pe := ext[p.Name]
+			if pe.Phase == "Pending" {
+				seen["removed-node-hosts:starting-pod(phase=Pending)"] = true
+			}
+			if pe.NotReady {
+				seen["removed-node-hosts:not-ready-pod"] = true
+				for _, b := range in.PDBs {
+					if b.App == p.Labels["app"] && b.Blocking && b.Policy == "AlwaysAllow" {
+						seen["removed-node-hosts:not-ready-pod-under-fully-blocking-pdb(AlwaysAllow)"] = true
+					}
+				}
+			}
+		}
+	}
+	for k := range seen {
+		l = append(l, k)
+	}
+	sort.Strings(l)
 	return l
 }
 
@@ -536,7 +600,13 @@ func Ops() []*core.Op {
 			Name: "c06.tables",
 			Doc:  "the real SingleNodeConsolidation / MultiNodeConsolidation ComputeCommands (real validator, fake clock) on clusters with two or three NodePools that share a NodeClass but are charged different prices for the same offerings (per-NodePool price tables served by the provider's GetInstanceTypes(nodePool): the shape of a NodeOverlay or a provider discount that selects karpenter.sh/nodepool; adjustments of 20..200 % on all types, one capacity type, or half of the types). The specification prices every removed node at ITS NodePool's price and every permitted launch of the replacement at the REPLACEMENT NodePool's price; the model's candidates carry their own NodePool's offerings (Candidate.Price, filterOutSameInstanceType) and the compared Candidate.Price is the real one",
 			N:    func(t core.Tier) int { return map[core.Tier]int{core.Quick: 500, core.Thorough: 6000}[t] },
-			Gen:  func(r *rand.Rand, t core.Tier) any { return genOverlayRun(r, pick(r, "single", "single", "multi")) },
+			Gen: func(r *rand.Rand, t core.Tier) any {
+				// half of the runs: the tables are produced by real NodeOverlays (real nodeoverlay controller + overlay.Decorate)
+				if r.Float64() < 0.5 {
+					return genNodeOverlayRun(r, pick(r, "single", "single", "multi"))
+				}
+				return genOverlayRun(r, pick(r, "single", "single", "multi"))
+			},
 			Impl: implRun,
 			Rule: "non-trivial = a command is produced on a cluster with per-NodePool price tables", Nontrivial: hasCmd,
 			Labels:    runLabels,
